@@ -192,12 +192,12 @@ def sel_cell(ck, F):
     ck.note("stores", n)
 
 
-def _validated_roots(body):
-    """{provenance frozenset: [(validator, call block, ok target)]} for is_valid_row / is_valid_column_number tests."""
+def _validated_roots(body, preds=("is_valid_row", "is_valid_column_number")):
+    """[(provenance frozenset, switch block, ok target, failing target)] for calls to the validators `preds`."""
     out = []
     for bi, t in body.calls():
         q = (body.callee_q(t) or "").rsplit("::", 1)[-1]
-        if q not in ("is_valid_row", "is_valid_column_number"):
+        if q not in preds:
             continue
         sr = frozenset(sources(body, t["args"][0]))
         # find switch
@@ -217,6 +217,15 @@ def _validated_roots(body):
                     f_t, t_t = t_t, f_t
                 out.append((sr, sb, t_t, f_t))
     return out
+
+
+def validated_at(body, bi, operand, preds):
+    """The operand's value passed one of the validators `preds` on every path to block bi."""
+    key = frozenset(sources(body, operand))
+    for vsr, sb, t_t, f_t in _validated_roots(body, preds):
+        if vsr == key and body.dominates(sb, bi) and (f_t is None or bi not in body.reachable_from(f_t, avoid={sb})):
+            return True
+    return False
 
 
 def _operand_valid(body, o, bi, validated):
